@@ -62,6 +62,13 @@ for _ax in ('sample', 'observation'):
         lambda b, t, o, a, ao, inplace, ax=_ax: t.update_ids({a.ids(ax)[0]: 'q'}, axis=ax, strict=False, inplace=inplace))
     op(f'update_ids:{_ax}:partial-collision', inplace=True)(
         lambda b, t, o, a, ao, inplace, ax=_ax: t.update_ids({a.ids(ax)[0]: a.ids(ax)[-1]}, axis=ax, strict=False, inplace=inplace))
+    op(f'update_ids:{_ax}:partial-chain', inplace=True)(       # a new name that is the current name of an id renamed by the same mapping
+        lambda b, t, o, a, ao, inplace, ax=_ax: t.update_ids(
+            ({a.ids(ax)[0]: a.ids(ax)[1], a.ids(ax)[1]: 'zz9'} if len(a.ids(ax)) > 1 else {a.ids(ax)[0]: 'zz9'}),
+            axis=ax, strict=False, inplace=inplace))
+    op(f'update_ids:{_ax}:swap', inplace=True)(                # the new names are a permutation of the old ones
+        lambda b, t, o, a, ao, inplace, ax=_ax: t.update_ids(
+            dict(zip(a.ids(ax), list(a.ids(ax))[1:] + list(a.ids(ax))[:1])), axis=ax, strict=True, inplace=inplace))
     op(f'add_metadata:{_ax}')(lambda b, t, o, a, ao, inplace, ax=_ax: (t.add_metadata(_md_for(a.ids(ax)), axis=ax), t)[1])
     op(f'del_metadata:{_ax}')(lambda b, t, o, a, ao, inplace, ax=_ax: (t.del_metadata(keys=['taxonomy', 'env'], axis=ax), t)[1])
     op(f'transform:{_ax}', inplace=True)(
@@ -85,6 +92,14 @@ def _sibling(b, t, ax, a):
 
 for _ax in ('sample', 'observation'):
     op(f'sibling-from-matrix_data:{_ax}')(lambda b, t, o, a, ao, inplace, ax=_ax: _sibling(b, t, ax, a))
+def _wrapper_concat(b, tables, ax):
+    import sx.env as env
+    return env.module('biom').concat(tables, axis=ax)
+
+
+for _ax in ('sample', 'observation'):
+    op(f'concat-wrapper-single:{_ax}')(lambda b, t, o, a, ao, inplace, ax=_ax: _wrapper_concat(b, [t], ax))
+    op(f'concat-wrapper:{_ax}', arity=2)(lambda b, t, o, a, ao, inplace, ax=_ax: _wrapper_concat(b, [t, o], ax))
 op('del_metadata:whole')(lambda b, t, o, a, ao, inplace: (t.del_metadata(axis='whole'), t)[1])
 op('pa', inplace=True)(lambda b, t, o, a, ao, inplace: t.pa(inplace=inplace))
 op('head')(lambda b, t, o, a, ao, inplace: t.head(1, 2))
